@@ -40,6 +40,9 @@ func init() {
 	})
 }
 
+// watchdogs counts expired watchdogs in this worker process.
+var watchdogs int
+
 // skel is an operation without its handlers.
 type skel struct{ kind, pos, n int }
 
@@ -160,6 +163,10 @@ func runC03(c *core.Ctx) {
 	typesSeen := map[int]bool{}
 	gi := 0
 	exec := func(cs caseSpec, counter string) {
+		if watchdogs >= 2 { // every further case would sit out the same watchdog
+			c.Count("cases_not_run_after_watchdogs", 1)
+			return
+		}
 		if !c.CaseQuiet(cs.ID) {
 			return
 		}
@@ -240,8 +247,9 @@ func (t *trial) run() {
 	t.pl = t.rig.PL
 	select {
 	case <-drv.parked:
-	case <-time.After(20 * time.Second):
+	case <-time.After(10 * time.Second):
 		c.Inconclusive(cs.ID, "watchdog: read loop did not park in the driver probe")
+		watchdogs++
 		return
 	}
 	head, tail := t.pl.ContextAt(0), t.pl.ContextAt(2)
@@ -493,13 +501,14 @@ func (t *trial) fire(e entry, plan []act, final bool) {
 	if t.rig.Ex.Outstanding() > 1 && !final {
 		if !t.rig.Ex.WaitOutstanding(1, 20*time.Second) {
 			c.Inconclusive(t.cs.ID, "watchdog: sender did not finish after "+e.name)
-			t.dead = true
+			t.dead, watchdogs = true, watchdogs+1
 			return
 		}
 	}
-	if final && !t.rig.Ex.WaitOutstanding(0, 20*time.Second) {
+	// Close is synchronous inside the closing call; only if it happened is there a read loop to wait for.
+	if final && t.rig.T.CloseCount() > 0 && !t.rig.Ex.WaitOutstanding(0, 20*time.Second) {
 		c.Inconclusive(t.cs.ID, "watchdog: read loop / sender did not finish after the closing event")
-		t.dead = true
+		t.dead, watchdogs = true, watchdogs+1
 		return
 	}
 	c.Count("events", 1)
